@@ -100,6 +100,10 @@ pub struct SimConsole {
     eof_prompt_reads: u32,
     /// spin guard: records written since the last instruction or the last line of input
     recs_since_progress: u64,
+    /// what the last fill_buf offered (consume takes a prefix of it)
+    last_fill: Vec<u8>,
+    /// bytes consumed through fill_buf/consume that do not yet make up a whole line, per caller
+    pending: [Vec<u8>; 2],
 }
 
 /// Payload used to stop a run that the simulator has proved will never end (EOF spin)
@@ -127,6 +131,8 @@ impl SimConsole {
             last_regs: [0; 14],
             eof_prompt_reads: 0,
             recs_since_progress: 0,
+            last_fill: Vec::new(),
+            pending: [Vec::new(), Vec::new()],
         }
     }
 
@@ -222,7 +228,79 @@ impl Console for SimConsole {
         r
     }
 
+    fn fill_buf(&mut self, who: Caller) -> io::Result<Vec<u8>> {
+        let who = match who {
+            Caller::Prompt => Who::Prompt,
+            Caller::Service => Who::Service,
+        };
+        if self.rd.buffer().is_empty() {
+            if let Some(f) = self.adaptive.as_mut() {
+                if let Some(mut line) = f(who, &self.last_regs, &self.shadow) {
+                    self.sh.borrow_mut().stdin.append(&mut line);
+                }
+            }
+        }
+        let r = self.rd.fill_buf().map(|b| b.to_vec());
+        match &r {
+            Ok(b) if b.is_empty() => {
+                self.push(Event::Fill { who, got: "eof".to_owned() });
+                // end of input: what was consumed so far is all there will ever be of that line
+                let wi = who as usize;
+                if !self.pending[wi].is_empty() {
+                    let t = String::from_utf8_lossy(&self.pending[wi]).into_owned();
+                    self.pending[wi].clear();
+                    self.push(Event::Line { who, res: LineRes::Ok(t) });
+                } else {
+                    self.push(Event::Line { who, res: LineRes::Eof });
+                    if who == Who::Prompt {
+                        self.eof_prompt_reads += 1;
+                        if self.eof_prompt_reads >= 64 {
+                            std::panic::resume_unwind(Box::new(SimSpin));
+                        }
+                    }
+                }
+            }
+            Ok(b) => self.push(Event::Fill { who, got: format!("{}", b.len()) }),
+            Err(e) => {
+                self.push(Event::Fill { who, got: format!("err:{:?}", e.kind()) });
+                self.push(Event::Line { who, res: LineRes::Err(format!("{:?}", e.kind())) });
+            }
+        }
+        self.last_fill = r.as_ref().map(|b| b.clone()).unwrap_or_default();
+        r
+    }
+
+    fn consume(&mut self, who: Caller, n: usize) {
+        let who = match who {
+            Caller::Prompt => Who::Prompt,
+            Caller::Service => Who::Service,
+        };
+        let n = n.min(self.last_fill.len());
+        let taken: Vec<u8> = self.last_fill.drain(..n).collect();
+        self.rd.consume(n);
+        self.push(Event::Consumed { who, bytes: Bytes(taken.clone()) });
+        let wi = who as usize;
+        self.pending[wi].extend_from_slice(&taken);
+        // every completed line is one Line event, as if read_line had been used
+        while let Some(p) = self.pending[wi].iter().position(|b| *b == b'\n') {
+            let line: Vec<u8> = self.pending[wi].drain(..=p).collect();
+            self.recs_since_progress = 0;
+            if who == Who::Prompt {
+                self.eof_prompt_reads = 0;
+            }
+            self.push(Event::Line { who, res: LineRes::Ok(String::from_utf8_lossy(&line).into_owned()) });
+        }
+    }
+
     fn probe(&mut self, idx: usize, code: &str, vm: &VM) -> bool {
+        // a caller that took only part of a line and went on: that part is what it read
+        for (wi, who) in [(0usize, Who::Prompt), (1usize, Who::Service)].iter() {
+            if !self.pending[*wi].is_empty() {
+                let t = String::from_utf8_lossy(&self.pending[*wi]).into_owned();
+                self.pending[*wi].clear();
+                self.push(Event::Line { who: *who, res: LineRes::Ok(t) });
+            }
+        }
         self.steps += 1;
         if self.steps > self.fuel {
             self.push(Event::Fuel);
